@@ -308,6 +308,15 @@ class SimpleJSONRPCDispatcher(SimpleXMLRPCDispatcher, object):
         except NoMulticallResult:
             # Return an empty string (jsonrpclib internal behaviour)
             return ""
+        except Exception as ex:
+            # The response can't be converted to a JSON string
+            fault = Fault(
+                -32603,
+                "{0}:{1}".format(type(ex).__name__, ex),
+                config=self.json_config,
+            )
+            _logger.error("Error preparing JSON-RPC response: %s", fault)
+            return fault.response()
 
     def _marshaled_single_dispatch(self, request, dispatch_method=None):
         """
